@@ -7,9 +7,9 @@ from impl import instance_line
 
 class Check(PropertyCheck):
     ID = "C20"
-    LEAN_MODULE = "JobShopProofs.HistoryWorld"
+    LEAN_MODULE = "JobShopProofs.FramesWorld"
     THEOREMS = ["JS.C20_bars", "JS.C20_bars_reachable", "JS.C20_ticks", "JS.frameKeyLe_iff", "JS.C20_load_order",
-                "JS.C20_frame_k", "JS.C10_world_history"]
+                "JS.C20_frame_k", "JS.C10_world_history", "JS.C20_world_frames", "JS.C20_world_frames_count"]
     RULE = ("random instances x random (partial or complete) dispatch histories: the real plot_gantt_chart is run "
             "(Agg backend) and the polygons matplotlib drew, their colours mapped back to jobs through the legend, the "
             "x ticks and the x limit are compared with the model; frame names from the real _save_frame (savefig "
